@@ -34,17 +34,10 @@ theorem fromFen_key (s : List Char) (b : Board) (h : Board.fromFen? s = some b) 
 /-- the start position carries its from-scratch key and is well-formed (non-vacuity of the hypotheses) -/
 theorem start_ok : Board.start.zkey = Board.start.scratchKey ∧ WF Board.start := start_ok'
 
-/-- an operation of a game with take-backs -/
-inductive Op | make (m : Ply) | unmake
-
-/-- run a sequence of operations; a `make` must name a generated move, an `unmake` needs a move to take back
-    (`depth` counts the moves made since the start of the run) -/
-def run : Board → Nat → List Op → Option (Board × Nat)
-  | b, d, [] => some (b, d)
-  | b, d, .make m :: ops => if m ∈ b.allMoves then run (b.makeMove m) (d + 1) ops else none
-  | b, d, .unmake :: ops => match d with
-    | 0 => none
-    | d + 1 => run b.unmakeMove d ops
+/- `Op` (an operation of a game with take-backs: `make m` | `unmake`) and `run` (run a sequence of
+   operations; a `make` must name a generated move, an `unmake` needs a move to take back; the `Nat` counts
+   the moves made since the start of the run) are defined in `RCE.Proofs.BoardKey`, unchanged, so that
+   the proof can refer to them; they are in scope here through `open RCE.Proofs.BoardKey`. -/
 
 /-- after every make and every unmake of any interleaving, incremental = from-scratch -/
 theorem key_ok_run (b : Board) (ops : List Op) (b' : Board) (d : Nat) (hw : WF b) (hk : b.zkey = b.scratchKey)
